@@ -488,9 +488,12 @@ class FileStoragePacker(FileStorageFormatter):
             return pos
         except OSError:
             # most probably ran out of disk space or some other IO error
-            close_files_remove()
-            if self.locked:
-                self._commit_lock.release()
+            try:
+                close_files_remove()
+            finally:
+                # the cleanup can fail, too (e.g. flushing on a full disk)
+                if self.locked:
+                    self._commit_lock.release()
             raise  # don't succeed silently
         except:  # noqa: E722 do not use bare 'except'
             if self.locked:
